@@ -114,6 +114,17 @@ class Collector:
         self.known_hits = collections.Counter()
         self.traces = 0
         self.notes = {}
+        self.harness_errors = []
+        self.search_mode = False
+
+    def phase(self, fn, *args, **kw):
+        import traceback
+        try:
+            return fn(*args, **kw)
+        except Exception as e:
+            traceback.print_exc()
+            self.harness_errors.append('%s: %r' % (getattr(fn, '__name__', 'phase'), e))
+            return None
 
     def n(self, quick, thorough):
         return thorough if self.tier_counts == 'thorough' else quick
@@ -160,6 +171,8 @@ class Collector:
         ctx.dist.update(self.dist)
         ctx.known_hits.update(self.known_hits)
         ctx.traces += self.traces
+        ctx.notes.update(self.notes)
+        ctx.harness_errors.extend(self.harness_errors)
         for d in self.disagreements:
             ctx.disagree(*d)
         for v in self.violations:
@@ -185,6 +198,16 @@ def _exh_worker(args):
             batch = []
     chk.number_batch(col, cu, batch, [DEFAULT, MINI], 'exh')
     return col
+
+
+def _group_worker(args):
+    group, phases, seed, search_pass, model_ok, verif, tier_counts = args
+    col = Collector(model_ok, verif, tier_counts)
+    col.search_mode = bool(search_pass)
+    chk = C18()
+    chk.search_pass = search_pass
+    times = chk.run_group(col, phases, seed, search_pass)
+    return col, times
 
 
 class C18(Check):
@@ -232,26 +255,54 @@ class C18(Check):
         return {'CssVerif/Gen/C18Tables.lean': c18_tables.generate(ctx.repo)}
 
     # ------------------------------------------------------------------------------------------
-    def run(self, ctx):
+    # the phases of one pass, grouped for the process pool: (phase name, arguments besides ctx); the phases of one
+    # group run in this order in one worker (strings / urls fill `src_cases` for token_values)
+    GROUPS = (
+        ('numbers-exh-0', (('numbers_exhaustive', ('c', 0, 3)),)),
+        ('numbers-exh-1', (('numbers_exhaustive', ('c', 1, 3)),)),
+        ('numbers-exh-2', (('numbers_exhaustive', ('c', 2, 3)),)),
+        ('numbers-rnd', (('check_pref_defaults', 'c'), ('run_corpus', 'c'), ('numbers', 'cr'))),
+        ('float', (('float_assumption', 'r'), ('too_large', 'c'), ('keywords', 'cr'), ('calc_correspondence', 'cr'))),
+        ('colour', (('colorfuncs', 'cr'), ('hashes', 'cr'))),
+        ('strings', (('strings', 'cr'), ('urls', 'cr'), ('token_values', 'c'))),
+        ('lists', (('helpers', 'cr'), ('separators', 'cr'), ('pv_correspondence', 'cr'))),
+        ('order', (('order_and_separators', 'cr'),)),
+    )
+
+    def run_group(self, ctx, phases, seed, search_pass):
+        """the phases of one group, in order, each with its own random stream derived from VERIF_SEED"""
+        import time
         cu = cssutils_()
         self.cu = cu
-        rng = ctx.sub_rng('c18' + ('/search%d' % getattr(self, 'search_pass', 0) if getattr(ctx, 'search_mode', False) else ''))
-        ctx.phase(self.check_pref_defaults, ctx, cu)
-        ctx.phase(self.run_corpus, ctx, cu)
-        ctx.phase(self.numbers, ctx, cu, rng)
-        ctx.phase(self.float_assumption, ctx, rng)
-        ctx.phase(self.helpers, ctx, cu, rng)
-        ctx.phase(self.hashes, ctx, cu, rng)
-        ctx.phase(self.keywords, ctx, cu, rng)
-        ctx.phase(self.colorfuncs, ctx, cu, rng)
-        ctx.phase(self.too_large, ctx, cu)
         self.src_cases = []
-        ctx.phase(self.strings, ctx, cu, rng)
-        ctx.phase(self.urls, ctx, cu, rng)
-        ctx.phase(self.token_values, ctx, cu)
-        ctx.phase(self.separators, ctx, cu, rng)
-        ctx.phase(self.order_and_separators, ctx, cu, rng)
-        ctx.phase(self.calc_correspondence, ctx, cu, rng)
+        times = {}
+        for name, args in phases:
+            tag = 'c18/%s%s' % (name, '/search%d' % search_pass if search_pass else '')
+            rng = __import__('random').Random('%s/%s/%s' % (seed, self.id, tag))
+            av = [ctx] + [cu if a == 'c' else rng if a == 'r' else a for a in args]
+            t0 = time.time()
+            ctx.phase(getattr(self, name), *av)
+            key = name + ''.join('.%s' % a for a in args if not isinstance(a, str))
+            times[key] = round(time.time() - t0, 1)
+        return times
+
+    def run(self, ctx):
+        search_pass = getattr(self, 'search_pass', 0) if getattr(ctx, 'search_mode', False) else 0
+        jobs = [(g, phases, ctx.seed, search_pass, ctx.model_ok, ctx.verif, ctx.tier_counts) for g, phases in self.GROUPS]
+        times = {}
+        if os.environ.get('C18_SERIAL'):
+            for g, phases, *_ in jobs:
+                times.update(self.run_group(ctx, phases, ctx.seed, search_pass))
+        else:
+            # implementation streams in a process pool (fork: cssutils and the driver path are inherited); every worker
+            # reports through a Collector that is merged here, nothing is cached across runs
+            with multiprocessing.get_context('fork').Pool(min(len(jobs), max(2, (os.cpu_count() or 4) - 2))) as pool:
+                for col, tms in pool.imap_unordered(_group_worker, jobs):
+                    col.merge_into(ctx)
+                    times.update(tms)
+        if ctx.n(2, 3) == 3 and not search_pass:
+            ctx.phase(self.numbers_exhaustive_pool, ctx, 3)
+        ctx.notes['phase_seconds'] = times
 
     # -- defaults ----------------------------------------------------------------------------------
     def check_pref_defaults(self, ctx, cu):
@@ -319,28 +370,26 @@ class C18(Check):
                 fp = '5'
             yield (sign, ip, fp, unit)
 
+    def numbers_exhaustive(self, ctx, cu, part, parts):
+        """quick tier: ALL literals with <= 2 + 2 digits, one third per worker"""
+        if ctx.n(2, 3) == 3 and not getattr(ctx, 'search_mode', False):
+            return      # thorough tier: `numbers_exhaustive_pool` (<= 3 + 3 digits), run by the parent after the groups
+        batch = [(None, comp) for i, comp in enumerate(self.gen_exhaustive(2)) if i % parts == part]
+        self.number_batch(ctx, cu, batch, [DEFAULT, MINI], 'exh')
+        ctx.notes['numbers_exhaustive_digits'] = '<=2+2'
+
     def numbers(self, ctx, cu, rng):
-        k = ctx.n(2, 3)
-        if getattr(ctx, 'search_mode', False):
-            k = 2
-        if k <= 2:
-            batch = []
-            for comp in self.gen_exhaustive(k):
-                batch.append((None, comp))
-                if len(batch) >= 60000:
-                    self.number_batch(ctx, cu, batch, [DEFAULT, MINI], 'exh')
-                    batch = []
-            self.number_batch(ctx, cu, batch, [DEFAULT, MINI], 'exh')
-        else:
-            # 3.7 million literals: split over worker processes, each with its own model driver
-            parts = max(2, min(14, (os.cpu_count() or 4) - 2))
-            with multiprocessing.get_context('fork').Pool(parts) as pool:
-                for col in pool.imap_unordered(_exh_worker, [(k, i, parts, ctx.model_ok, ctx.verif, ctx.tier_counts)
-                                                             for i in range(parts)]):
-                    col.merge_into(ctx)
-        ctx.notes['numbers_exhaustive_digits'] = '<=%d+%d' % (k, k)
         rnd = [(None, c) for c in self.gen_random(rng, ctx.n(6000, 150000))]
         self.number_batch(ctx, cu, rnd, ALL_PREFS if ctx.tier_counts != 'thorough' else [DEFAULT, OLZ, MINI, ALL_PREFS[5]], 'rnd')
+
+    def numbers_exhaustive_pool(self, ctx, k):
+        """3.7 million literals: split over worker processes, each with its own model driver"""
+        parts = max(2, min(14, (os.cpu_count() or 4) - 2))
+        with multiprocessing.get_context('fork').Pool(parts) as pool:
+            for col in pool.imap_unordered(_exh_worker, [(k, i, parts, ctx.model_ok, ctx.verif, ctx.tier_counts)
+                                                         for i in range(parts)]):
+                col.merge_into(ctx)
+        ctx.notes['numbers_exhaustive_digits'] = '<=%d+%d' % (k, k)
 
     def number_batch(self, ctx, cu, items, prefsets, tag):
         """items: (text or None, components or None). components = (sign, ip, fp, unit) as generated"""
@@ -990,6 +1039,9 @@ class C18(Check):
                      sample={'calc': t, 'prefs': repr(ps), 'impl': txt})
             if m != 'OK ' + enc(txt):
                 ctx.disagree('CSSCalc.cssText', {'text': t, 'prefs': repr(ps)}, txt, dec(m[3:]) if m.startswith('OK ') else m)
+
+    def pv_correspondence(self, ctx, cu, rng):
+        pass
 
     def token_signature(self, text):
         """the non-white-space token sequence of a value text, numbers as exact (value, unit) so that only layout and
